@@ -154,7 +154,8 @@ OPS = [("emit", "a", 1), ("emit", "b", 1), ("emit", "b", 2), ("emit", "c", 5), (
        ("connect", "a", "j"), ("connect", "m", "j"), ("disconnect", "b", "j"), ("disconnect", "c", "j"),
        ("disconnect", "a", "j"), ("disconnect", "m", "j"), ("connect", "b", "j"), ("connect", "c", "j"),
        ("destroy", "j"), ("destroy", "m"), ("dropref", "br"), ("sinkdestroy",),
-       ("destroyonly", "j", "b"), ("destroyonly", "j", "c")]       # j.destroy(streams=[b]): only that input goes
+       ("destroyonly", "j", "b"), ("destroyonly", "j", "c"),       # j.destroy(streams=[b]): only that input goes
+       ("dropref", "br", "nogc")]           # the last reference goes and no cycle collection runs: plain reference counting must do
 
 
 def applicable(ref, op, flags):
@@ -209,6 +210,7 @@ def run(kind, hist):
     flags = dict(dropped=False, sinkdead=False)
     log = real.log
     gc_was = gc.isenabled()
+    gc.disable()
     try:
         for i, op in enumerate(hist):
             if not applicable(ref, op, flags):
@@ -256,7 +258,10 @@ def run(kind, hist):
                     ref.ups["brm"] = []
                     ref.ups["br"] = []
                     real.branch = None
-                    gc.collect()
+                    if len(op) > 2 and op[2] == "nogc":
+                        pass
+                    else:
+                        gc.collect()
                 elif op[0] == "sinkdestroy":
                     flags["sinkdead"] = True
                     ref.edges["a"].remove("snk")
@@ -283,7 +288,7 @@ def run(kind, hist):
                     want = len(ref.reachable(start))
                     if got != want:
                         return ("node-set", _opsite(ref, op), dict(op=op, start=start, got=got, want=want)), None
-        return None, (ref.key(), flags["dropped"], flags["sinkdead"])
+        return None, (ref.key(), flags["dropped"], flags["sinkdead"], _real_state(real.nodes["j"]))
     finally:
         try:
             if not flags["sinkdead"]:
@@ -299,6 +304,36 @@ def run(kind, hist):
             pass
         if gc_was:
             gc.enable()
+
+
+def _real_state(node):
+    """the join's own instance state, by value (links and loop objects left out): hidden state a change adds
+    (a parked backlog, a cached position) makes two histories distinct that the reference would merge"""
+    out = []
+    for k, v in sorted(vars(node).items()):
+        if k in ("upstreams", "downstreams", "loop", "_loop", "name", "current_value", "current_metadata", "condition", "_condition", "literals"):
+            continue
+        try:
+            r = repr(_plain(v))
+        except Exception:   # noqa
+            r = type(v).__name__
+        out.append((k, r))
+    return tuple(out)
+
+
+def _plain(v, depth=0):
+    from streamz import Stream
+    if depth > 4:
+        return "..."
+    if isinstance(v, Stream):
+        return "<%s>" % (getattr(v, "name", None) or type(v).__name__)
+    if isinstance(v, dict):
+        return sorted((repr(_plain(k, depth + 1)), _plain(x, depth + 1)) for k, x in v.items())
+    if isinstance(v, (list, tuple, set, frozenset)) or type(v).__name__ == "deque":
+        return [_plain(x, depth + 1) for x in v]
+    if isinstance(v, (int, float, str, bool, type(None))):
+        return v
+    return type(v).__name__
 
 
 def _site(log, exp):
